@@ -422,19 +422,24 @@ func slowGenBankOriginParser(length int) pars.Parser {
 			extent += len(prefix)
 
 			for j := 0; j < 60 && i+j < length; j += 10 {
-				if q[extent] != spaceByte {
+				if extent >= len(q) || q[extent] != spaceByte {
 					pos.Byte += extent
 					return pars.NewError("expected whitespace", pos)
 				}
 				extent++
 
 				for k := 0; k < 10 && i+j+k < length; k++ {
-					if !isBaseCharacter(q[extent]) {
+					if extent >= len(q) || !isBaseCharacter(q[extent]) {
 						pos.Byte += extent
 						return pars.NewError("expected character", pos)
 					}
 					extent++
 				}
+			}
+
+			if len(bytes.TrimRight(q[extent:], " ")) != 0 {
+				pos.Byte += extent
+				return pars.NewError("expected newline", pos)
 			}
 
 			offset += copy(p[offset:], q[:extent])
@@ -455,6 +460,10 @@ func makeGenbankOriginParser(length int) genbankSubparser {
 			}
 			pars.Line(state, result)
 
+			// From here on the field is an ORIGIN block: a failure must not be
+			// retried as an unknown field.
+			state.Clear()
+
 			if err := state.Request(toOriginLength(length)); err != nil {
 				return pars.NewError("not enough bytes in state", state.Position())
 			}
@@ -462,15 +471,19 @@ func makeGenbankOriginParser(length int) genbankSubparser {
 			p := state.Buffer()
 			if validateOrigin(p, length, state.Position()) == nil {
 				state.Advance()
-				gb.Origin = &Origin{p, false}
-				return nil
+			} else {
+				parser := slowGenBankOriginParser(length)
+				if err := parser(state, result); err != nil {
+					return err
+				}
+				p = result.Token
 			}
 
-			parser := slowGenBankOriginParser(length)
-			if err := parser(state, result); err != nil {
-				return err
+			// A further sequence line means the block holds more residues than
+			// the LOCUS line declares.
+			if c, err := pars.Next(state); err == nil && c == spaceByte {
+				return pars.NewError("sequence is longer than the declared length", state.Position())
 			}
-			p = result.Token
 
 			gb.Origin = &Origin{p, false}
 			return nil
